@@ -90,8 +90,8 @@ pub enum Instruction {
     Return0,
     /// value start position, Nrets
     Return(Reg, TypeSize),
-    //dst,src,time,idx
-    Delay(Reg, Reg, Reg),
+    /// dst, src, time, index of the ring size in the function's `delay_sizes`
+    Delay(Reg, Reg, Reg, u8),
     Mem(Reg, Reg),
 
     /// jump to instruction over the offset.
@@ -228,8 +228,8 @@ impl std::fmt::Display for Instruction {
                     "release_usersum", src, size, type_idx
                 )
             }
-            Instruction::Delay(dst, src, time) => {
-                write!(f, "{:<10} {} {} {}", "delay", dst, src, time)
+            Instruction::Delay(dst, src, time, size_idx) => {
+                write!(f, "{:<10} {} {} {} {}", "delay", dst, src, time, size_idx)
             }
             Instruction::Mem(dst, src) => {
                 write!(f, "{:<10} {} {}", "mem", dst, src)
